@@ -153,7 +153,7 @@ def run_case(case):
                                    math.atan2(float(vals['s']), float(vals['c']))).ravel()
                     npx.install(modules=['gaddlemaps._auxilliary'])
                     ok = got is not None and max(abs(g - w) for g, w in zip(got, want)) < 1e-9
-                    records.append({'name': 'translator-validation', 'status': 'unsat' if ok else 'error', 'secs': 0,
+                    records.append({'name': 'translator-validation', 'status': 'validated' if ok else 'error', 'secs': 0,
                                     'detail': 'symbolic vs float rotation_matrix differ: %s vs %s' % (got, list(want))})
                 samples.append({'path_condition': [str(p) for p in ctx.pc], 'R[0][0]': str(z3.simplify(expr(R[0, 0])))[:300]})
             elif name.endswith('composition'):
